@@ -48,12 +48,16 @@ Agree4(x, o) ==
            /\ \A i \in 1..Len(r.txs) : r.txs[i].pkt = r.txs[1].pkt /\ r.txs[i].dest = o.cfg.srv
            /\ r.ok = (sid # "B")                       \* the scripted NAK comes from server B
            /\ (r.ok => r.sameoffer)
+    \* a renewal whose first write fails reports the error, transmits nothing and leaves nothing behind (the renewal
+    \* after it is judged above like any other)
+    /\ Has(o, "renew0") => o.renew0.err /\ o.renew0.ntx = 0
     \* release: exactly one RELEASE for the leased address to the lease's server
     /\ Has(o, "release") =>
            LET r == o.release IN
            /\ r.ok /\ Len(r.txs) = 1
            /\ r.txs[1].pkt = B4!Build("ReleaseFromACK", r.ackpkt, UserMods, r.txs[1].pkt.xid)
-           /\ r.txs[1].dest = DestOf(SidOf(r.ackpkt))
+           /\ \/ r.txs[1].dest = DestOf(SidOf(r.ackpkt))
+              \/ o.cfg.raw /\ SidOf(r.ackpkt) = <<>> /\ r.txs[1].dest = "0.0.0.0:67"     \* no address: all zeroes in a frame
 
 Kind6(tx) == IF ~Has(tx, "mt") THEN "other" ELSE IF tx.mt = 1 THEN "first" ELSE IF tx.mt = 3 THEN "second" ELSE "other"
 Agree6(x, o) ==
